@@ -178,6 +178,22 @@ func (g *stGen) query(net int, api bool, mask int) *stQuery {
 				mask |= 1 << i
 			}
 		}
+		if r.Intn(8) == 0 {
+			// a fully specified query; over a relationship that is stored more than once when
+			// there is one (the table is a multiset: every copy is listed)
+			mask = 15
+			rows := g.rowsOf(net)
+			seen := map[stTuple]int{}
+			for _, row := range rows {
+				seen[row.t]++
+			}
+			for _, row := range rows {
+				if seen[row.t] > 1 {
+					base = row.t
+					break
+				}
+			}
+		}
 	}
 	q := &stQuery{}
 	if mask&1 != 0 {
